@@ -101,15 +101,19 @@ class C18(Prop):
             "back, evaluate), Spec on every answer recomputed from the data current at that time.  Non-trivial = "
             "requery case whose second answer differs from the first, or pipeline case "
             "with more blocks than chromosomes, >= 2 taxa and >= 2 markers on some chromosome")
-    TRUSTED = ["numpy.linspace / dot / max / sort / argmin as modelled in Model/Haplo.lean (linspace: endpoints exact, "
-               "interior points a + j*((b-a)/n); the labels are also checked against the model run on numpy's own "
-               "float boundaries)",
+    TRUSTED = ["numpy.dot / max / sort as modelled in Model/Haplo.lean (values compared at 1e-9)",
+               "IEEE binary64: the layout part of the model (apportionment, linspace, labels, block bounds) is EXECUTED at "
+               "Lean's Float with numpy's operation order and compared bit for bit on every case; the theorems cover it "
+               "through the rounding contract RoundOK / ChromRoundOK (monotone rounding, 0 and the first position "
+               "representable, last computed point <= stop), whose observable consequence (boundaries sorted and "
+               "bracketing the markers) is re-checked on numpy's own linspace output in every case",
                "DensePhasedGenotypeMatrix.group_vrnt and DenseAdditiveLinearGenomicModel only carry the arrays "
                "(checked on every case: positions and chromosome bounds read back unchanged)"]
-    ASSUMPTIONS = ["positions sorted within chromosomes, every chromosome has >= 1 marker (what group_vrnt produces)",
-                   "exact-model correspondence is demanded only on cases where no marker lies within rounding of an "
-                   "interior linspace boundary unless the float boundary is exact, and no exact tie of the greedy "
-                   "loop is between chromosomes of different length (decided per case, recorded in the detail)",
+    ASSUMPTIONS = ["positions sorted within chromosomes, every chromosome has >= 1 marker (what group_vrnt produces), fewer than "
+                   "8 chromosomes (numpy sums genlen left to right below 8 elements)",
+                   "the exact-arithmetic (Rat) layout model is compared in addition wherever no marker-vs-boundary comparison "
+                   "and no greedy tie depends on rounding (decided per case, recorded in the detail); the binary64 layout "
+                   "model is compared unconditionally",
                    "an uninitialised numpy.empty cell is modelled as `none`; the harness pre-fills the heap with NaN "
                    "so that such cells are visible, but no verdict depends on their content"]
 
@@ -172,6 +176,13 @@ class C18(Prop):
             k = rng.randint(1, 5)
             xs = [Fraction(0), step * k] + [step * rng.randint(0, k) for _ in range(n - 2)]
             return sorted(xs)
+        if style == "decimal":  # decimal grid: in exact decimal arithmetic markers sit ON the boundaries, in binary64 the
+            k = rng.randint(1, 6)  # rounding of `j*step + start` decides on which side -- only a bit-exact model follows
+            xs = [Fraction(0), Fraction(k * rng.choice([1, 2, 3]), 10)] + \
+                 [Fraction(rng.randint(0, 3 * k), 10) for _ in range(n - 2)]
+            xs = [x for x in xs if x <= xs[1]] + [xs[1]] * sum(1 for x in xs if x > xs[1])
+            a = Fraction(rng.choice([0, 0, 1, 3, 7]), 10)
+            return sorted(Fraction(float(a + x)) for x in xs)
         if style == "flat":
             return [Fraction(rng.randint(0, 3))] * n
         if style == "float":
@@ -181,7 +192,8 @@ class C18(Prop):
 
     def _layout_case(self, rng, style=None):
         nchr = rng.choice([1, 1, 2, 2, 3, 4])
-        style = style or rng.choice(["even", "even", "int", "int", "dyadic", "cluster", "tie", "tie", "mixed", "float"])
+        style = style or rng.choice(["even", "even", "int", "int", "dyadic", "cluster", "tie", "tie", "mixed", "float",
+                                      "decimal"])
         chroms = []
         for _ in range(nchr):
             n = rng.choice([1, 2, 3, 3, 4, 5, 6, 7])
@@ -257,7 +269,7 @@ class C18(Prop):
             chroms, style = self._layout_case(rng)
             p = sum(len(c) for c in chroms)
             nchr = len(chroms)
-            isfloat = style == "float"
+            isfloat = style in ("float", "decimal")
             if r < 0.17:
                 nblk = [rng.randint(1, max(1, len(c))) for c in chroms]
                 out.append({"kind": "haplobin", "float": isfloat, "nblk": nblk,
@@ -655,7 +667,8 @@ class C18(Prop):
             mb, mbd = ans
             faithful = self._faithful(case, obs["hbs"], mb["hbs"])
             corr = (self._contract(case, obs["hbs"], case["nblk"])
-                    and mb["hbin_hb"] == obs["hbin"] and (not faithful or mb["hbin"] == obs["hbin"])
+                    and mb["hbin_hb"] == obs["hbin"] and mb["hbin_f"] == obs["hbin"]
+                    and (not faithful or mb["hbin"] == obs["hbin"])
                     and all(mbd.get(x) == obs[x] for x in ("hstix", "hspix", "hlen")))
             # Spec of a direct call: every marker labelled inside its chromosome's label range, labels
             # non-decreasing, bounds tile the markers, input untouched
@@ -683,15 +696,21 @@ class C18(Prop):
         robust = "nblk" in mn and canon.dec(mn["margin"]) > Fraction(1, 10 ** 9)
         faithful = self._faithful(case, obs["hbs"], mb["hbs"])
         corr = True
+        if mn.get("nblk_f") != obs["nblk"]:
+            corr = False
+            notes.append(f"nblk model(binary64)={mn.get('nblk_f')} impl={obs['nblk']}")
         if robust and mn["nblk"] != obs["nblk"]:
             corr = False
-            notes.append(f"nblk model={mn['nblk']} impl={obs['nblk']}")
+            notes.append(f"nblk model(exact)={mn['nblk']} impl={obs['nblk']}")
         if not self._contract(case, obs["hbs"], obs["nblk"]):
             corr = False
             notes.append("numpy.linspace output violates the BoundsOK contract assumed by the theorems")
         if mb["hbin_hb"] != obs["hbin"]:
             corr = False
             notes.append(f"hbin(model on numpy's boundaries)={mb['hbin_hb']} impl={obs['hbin']}")
+        if mb["hbin_f"] != obs["hbin"]:
+            corr = False
+            notes.append(f"hbin(model at binary64)={mb['hbin_f']} impl={obs['hbin']}")
         if faithful and mb["hbin"] != obs["hbin"]:
             corr = False
             notes.append(f"hbin(model, exact linspace)={mb['hbin']} impl={obs['hbin']}")
@@ -699,7 +718,7 @@ class C18(Prop):
             corr = False
             notes.append(f"bounds model={mbd}")
         model_d10 = ("error" in mm) or any(c is None for a in mm["hmat"] for b in a for r in b for c in r)
-        if robust and faithful:
+        if True:        # the pipeline model takes its layout at binary64: compared on EVERY case
             if "error" in mm:
                 # the model rejects exactly when every guarded entry point raised
                 if mm["error"] != "value" or sorted(obs["guard"]) != ["gb", "haplo", "ohv", "opv"]:
@@ -712,8 +731,8 @@ class C18(Prop):
                 c2, n2 = self._corr_model(mm, obs)
                 corr = corr and c2
                 notes += n2
-        else:
-            notes.append(f"exact pipeline not compared (robust={robust} faithful={faithful})")
+        if not (robust and faithful):
+            notes.append(f"exact-arithmetic layout not compared (robust={robust} faithful={faithful}); binary64 layout is")
         failed = list(sp["failed"])
         if not obs["finite"]:
             failed.append("finite")
@@ -724,9 +743,9 @@ class C18(Prop):
         nontriv = (case["nhaploblk"] > len(stix) and len(case["geno"][0]) >= 2 and max(case["chr_sizes"]) >= 2)
         return {"corr": corr, "spec": spec, "nontrivial": nontriv, "failed": failed,
                 "empty_bin": self._empty_bin(case, obs["hbs"]),
-                # the model of the UNCHANGED code exhibits the failure on this very input (or cannot be compared
-                # because of a float-fragile tie): only then may a known finding explain it
-                "model_predicts": bool(model_d10 or not (robust and faithful)),
+                # the model of the UNCHANGED code (layout at binary64) exhibits the failure on this very input:
+                # only then may a known finding explain it
+                "model_predicts": bool(model_d10),
                 "detail": f"spec failed={failed} checked={sp['checked']} nblk={obs['nblk']} hbin={obs['hbin']} "
                           f"blocks={len(obs['hstix'])}/{case['nhaploblk']} guard={obs['guard']} finite={obs['finite']} "
                           + "; ".join(notes)}
@@ -736,8 +755,6 @@ class C18(Prop):
         if "skipped" in obs:
             return {"corr": True, "spec": True, "nontrivial": False, "detail": "requery: " + obs["skipped"]}
         mA, mB, sB, sA = ans[2:]
-        robust = "nblk" in mn and canon.dec(mn["margin"]) > Fraction(1, 10 ** 9)
-        faithful = self._faithful(case, obs["hbs"], mb["hbs"])
         notes, failed = [], []
         close = lambda a, b: canon.close_enc(a, b, rel=1e-9, abs_=1e-9)
         # ---- Spec: definitions re-evaluated on the data that is CURRENT at the time of the answer
@@ -755,7 +772,13 @@ class C18(Prop):
             failed.append("nbestfndr after the setter")
         # ---- correspondence with the model: first/third = model(A), second = model(B)
         corr = True
-        if robust and faithful and "error" not in mA and "error" not in mB:
+        if mn.get("nblk_f") != obs["nblk"] or mb["hbin_f"] != obs["hbin"]:
+            corr = False
+            notes.append("layout differs from the binary64 model")
+        if "error" in mA or "error" in mB:
+            corr = False
+            notes.append(f"model refused: {mA.get('error')} {mB.get('error')}")
+        else:
             pairs = [("opv", "opv_latent"), ("ohv", "ohv_latent"), ("gb", "gb_latent")]
             for name, key in pairs:
                 for step, mm in (("first", mA), ("second", mB), ("third", mA)):
@@ -766,8 +789,6 @@ class C18(Prop):
                     or not close(mB["hmat"], obs["gb"]["hmat2"]) or mB["xmap"] != obs["ohv"]["xmap"]:
                 corr = False
                 notes.append("matrices read back after the setter differ from the model of the new data")
-        else:
-            notes.append(f"exact model not compared (robust={robust} faithful={faithful})")
         changed = any(not close(obs[nm]["first"], obs[nm]["second"]) for nm in ("opv", "ohv", "gb"))
         return {"corr": corr, "spec": not failed, "nontrivial": changed, "failed": failed,
                 "detail": f"requery failed={failed} opv={ {k: obs['opv'][k] for k in ('first', 'second', 'third')} } "
